@@ -18,6 +18,12 @@ _OBS: list = []
 _CFG: dict = {}
 
 
+def _rlimit(timeout_ms):
+    """deterministic resource limit going with a wall-clock timeout (z3's timeout is checked at coarse points only and is
+    load-dependent; the resource counter is neither): about 3x what the timeout allows on an idle core"""
+    return int(max(1, timeout_ms)) * 25000
+
+
 def _model_to_dict(m: z3.ModelRef, limit=400):
     out = {}
     for d in m.decls()[:limit]:
@@ -106,6 +112,7 @@ def _lemma_slice(ob: Obligation):
 def _try_slice(hyps, goal, timeout_ms):
     s0 = z3.Solver()
     s0.set('timeout', timeout_ms)
+    s0.set('rlimit', _rlimit(timeout_ms))
     for h in hyps:
         s0.add(h)
     s0.add(z3.Not(goal))
@@ -145,6 +152,7 @@ def _plain(ob, timeout_ms, seed, fresh=False):
         ctx = z3.Context()
         s = z3.Solver(ctx=ctx)
         s.set('timeout', timeout_ms)
+        s.set('rlimit', _rlimit(timeout_ms))
         s.set('random_seed', seed)
         for h in ob.hyps:
             s.add(h.translate(ctx) if isinstance(h, z3.ExprRef) else h)
@@ -152,6 +160,7 @@ def _plain(ob, timeout_ms, seed, fresh=False):
     else:
         s = z3.Solver()
         s.set('timeout', timeout_ms)
+        s.set('rlimit', _rlimit(timeout_ms))
         s.set('random_seed', seed)
         for h in ob.hyps:
             s.add(h)
@@ -230,6 +239,7 @@ def _case_split(ob: Obligation, timeout_ms):
         for signs in itertools.product((True, False), repeat=len(conds)):
             s = z3.Solver(ctx=ctx)
             s.set('timeout', timeout_ms)
+            s.set('rlimit', _rlimit(timeout_ms))
             for h in hyps:
                 s.add(h)
             for c, sg in zip(conds, signs):
@@ -340,6 +350,7 @@ def canary(hyps, timeout_ms=1500):
     """vacuity guard: hypotheses must be satisfiable (the goal False must NOT be provable)"""
     s = z3.Solver()
     s.set('timeout', timeout_ms)
+    s.set('rlimit', _rlimit(timeout_ms))
     for h in hyps:
         s.add(h)
     r = s.check()
@@ -352,6 +363,7 @@ def bounded_refute(ob: Obligation, bound: int, timeout_ms: int) -> bool:
     ins = ob.meta.get('inputs') or {}
     s = z3.Solver()
     s.set('timeout', timeout_ms)
+    s.set('rlimit', _rlimit(timeout_ms))
     for h in ob.hyps:
         s.add(h)
     s.add(z3.Not(ob.goal))
@@ -378,6 +390,7 @@ def hinted_refute(ob: Obligation, hint, timeout_ms: int) -> bool:
     """search a counter-model of the obligation inside the sub-class of inputs described by `hint`"""
     s = z3.Solver()
     s.set('timeout', timeout_ms)
+    s.set('rlimit', _rlimit(timeout_ms))
     for h in ob.hyps:
         s.add(h)
     s.add(z3.Not(ob.goal))
